@@ -174,10 +174,11 @@ def writer_files(item):
     tmp = tempfile.mkdtemp(prefix='verif_c09w_', dir='/dev/shm' if os.path.isdir('/dev/shm') else None)
     path = os.path.join(tmp, 'w.tdms')
     try:
-        for seq in ([17], [17, 7], [10, 4, 12], [2, 8, 11, 4]):
+        for seq, dest in [(q, d) for q in ([17], [17, 7], [10, 4, 12], [2, 8, 11, 4]) for d in ('stream', 'path')]:
             calls = [shapes[i] for i in seq]
             try:
-                r = W.run_program(calls, assign, 1 if len(seq) > 1 else 0, 4713, 'stream', index=True)
+                # two writer sessions (append mode) whenever there is more than one call
+                r = W.run_program(calls, assign, 1 if len(seq) > 1 else 0, 4713, dest, index=True)
             except W.Skip:
                 continue
             if r[0] != 'written':
